@@ -267,8 +267,34 @@ pub struct TestPort {
     pub flush_fails: bool,
     /// which of the five settings the device cannot report (see FSettings::opaque)
     pub opaque: [bool; 5],
+    /// where the port leaves a last view of itself (bytes written, bytes unread, settings, timeout) when it is dropped:
+    /// an owner such as `Odk` keeps its port private, so the harness looks at the port after dropping the owner
+    pub last_view: Option<std::sync::Arc<std::sync::Mutex<Option<Vec<String>>>>>,
+}
+impl Drop for TestPort {
+    fn drop(&mut self) {
+        if let Some(v) = &self.last_view {
+            if let Ok(mut g) = v.lock() {
+                *g = Some(self.view_fields());
+            }
+        }
+    }
 }
 impl TestPort {
+    fn view_fields(&self) -> Vec<String> {
+        vec![
+            hex_of_bytes(&self.wr.out),
+            hex_of_bytes(self.rd.remaining()),
+            str_settings(&self.settings),
+            self.timeout.map(|d| d.as_nanos().to_string()).unwrap_or_else(|| "-".to_string()),
+        ]
+    }
+    /// Ask the port to leave its last view behind; returns the place where it will appear.
+    pub fn watch(&mut self) -> std::sync::Arc<std::sync::Mutex<Option<Vec<String>>>> {
+        let v = std::sync::Arc::new(std::sync::Mutex::new(None));
+        self.last_view = Some(v.clone());
+        v
+    }
     pub fn new(rd: SchedReader, wr: SchedWriter) -> Self {
         TestPort {
             rd,
@@ -285,6 +311,7 @@ impl TestPort {
             timeout: None,
             config_calls: vec![],
             flush_fails: false,
+            last_view: None,
             opaque: [false; 5],
         }
     }
@@ -768,7 +795,8 @@ pub fn eval_io_case(t: &[&str]) -> Option<String> {
             let answers: Vec<Option<flipdot_core::Message<'static>>> = replies.iter().map(|s| if *s == "N" { None } else { Some(msg_of_str(s)) }).collect();
             let nsteps = answers.len();
             let current = Rc::new(RefCell::new(None));
-            let port = TestPort::new(SchedReader::new(bytes_of_hex(t[1]), vec![]), SchedWriter::new(ws.iter().map(|s| wr_ev_of_str(s)).collect()));
+            let mut port = TestPort::new(SchedReader::new(bytes_of_hex(t[1]), vec![]), SchedWriter::new(ws.iter().map(|s| wr_ev_of_str(s)).collect()));
+            let view = port.watch();
             let mut odk = match Odk::try_new(port, Scripted { current: current.clone(), log: log.clone() }) {
                 Ok(o) => o,
                 Err(_) => return Some("ER SETUP".to_string()),
@@ -789,8 +817,8 @@ pub fn eval_io_case(t: &[&str]) -> Option<String> {
                 let fwd = log.borrow().get(before).cloned().unwrap_or_else(|| "-".to_string());
                 outs.push(format!("{} fwd={}", s, fwd));
             }
-            let (out_hex, rem_hex) = odk_port_view(&odk);
-            Some(format!("{} | {} | {}", outs.join(" ; "), out_hex, rem_hex))
+            let f = view_after_drop(odk, &view);
+            Some(format!("{} | {} | {}", outs.join(" ; "), f[0], f[1]))
         }
         "OD" => {
             let k: usize = t[1].parse().unwrap();
@@ -808,7 +836,8 @@ pub fn eval_io_case(t: &[&str]) -> Option<String> {
             let input = bytes_of_hex(rest[0]);
             let nsteps: usize = rest[1].parse().unwrap();
             let wsched: Vec<WrEv> = rest[2..].iter().map(|s| wr_ev_of_str(s)).collect();
-            let port = TestPort::new(SchedReader::new(input, vec![]), SchedWriter::new(wsched));
+            let mut port = TestPort::new(SchedReader::new(input, vec![]), SchedWriter::new(wsched));
+            let view = port.watch();
             // spy bus: remember what the bridge forwarded
             struct Spy {
                 inner: SharedVBus,
@@ -847,13 +876,11 @@ pub fn eval_io_case(t: &[&str]) -> Option<String> {
                 let fwd = last.borrow().clone().unwrap_or_else(|| "-".to_string());
                 outs.push(format!("{} fwd={}", s, fwd));
             }
-            // Odk has no accessor for its port: recover the streams through a raw look at the
-            // fields is impossible, so the port is observed through shared handles instead.
-            // (TestPort is moved into Odk; we read it back via the debug-free helper below.)
-            let (out_hex, rem_hex) = odk_port_view(&odk);
+            // Odk has no accessor for its port: the port leaves a last view of itself behind when the bridge is dropped.
+            let f = view_after_drop(odk, &view);
             let b = vbus.borrow();
             let obs_all: Vec<String> = (0..k).map(|i| obs(b.sign(i))).collect();
-            Some(format!("{} | {} | {} | {}", outs.join(" ; "), out_hex, rem_hex, obs_all.join("/")))
+            Some(format!("{} | {} | {} | {}", outs.join(" ; "), f[0], f[1], obs_all.join("/")))
         }
         "WB" | "WBS" => {
             let k: usize = t[1].parse().unwrap();
@@ -929,6 +956,7 @@ pub fn eval_io_case(t: &[&str]) -> Option<String> {
             port.opaque = [opaque[0], opaque[1], opaque[2], opaque[3], opaque[4]];
             port.fail_kind = FailKind::of_str(fkind);
             let want_kind = port.fail_kind.kind();
+            let view = port.watch();
             let ctor: Vec<&str> = t[7].split('.').collect();
             let show = |p: &TestPort| {
                 if p.opaque.iter().any(|o| *o) {
@@ -968,8 +996,8 @@ pub fn eval_io_case(t: &[&str]) -> Option<String> {
                     match guarded(|| Odk::try_new(port, vb)) {
                         None => "PANIC".to_string(),
                         Some(Ok(o)) => {
-                            let (s, to) = odk_settings_view(&o);
-                            format!("OK {} {}", s, to)
+                            let f = view_after_drop(o, &view);
+                            format!("OK {} {}", f[2], f[3])
                         }
                         Some(Err(e)) => which(&e),
                     }
@@ -981,26 +1009,16 @@ pub fn eval_io_case(t: &[&str]) -> Option<String> {
     }
 }
 
-/// Odk keeps its port private and offers no accessor; its derived Debug prints the port's Debug.
-/// TestPort's Debug is written to expose exactly what we need.
 impl std::fmt::Debug for TestPort {
     fn fmt(&self, f: &mut std::fmt::Formatter<'_>) -> std::fmt::Result {
-        write!(
-            f,
-            "TESTPORT<{}|{}|{}|{}>",
-            hex_of_bytes(&self.wr.out),
-            hex_of_bytes(self.rd.remaining()),
-            str_settings(&self.settings),
-            self.timeout.map(|d| d.as_nanos().to_string()).unwrap_or_else(|| "-".to_string())
-        )
+        write!(f, "TestPort")
     }
 }
 
-fn testport_fields<P: serial_core::SerialPort + std::fmt::Debug, B: SignBus + std::fmt::Debug>(odk: &Odk<P, B>) -> Vec<String> {
-    let s = format!("{:?}", odk);
-    let a = s.find("TESTPORT<").expect("no TESTPORT in Debug") + 9;
-    let b = s[a..].find('>').unwrap() + a;
-    s[a..b].split('|').map(|x| x.to_string()).collect()
+/// The port's last view once its owner has been dropped.
+fn view_after_drop<T>(owner: T, v: &std::sync::Arc<std::sync::Mutex<Option<Vec<String>>>>) -> Vec<String> {
+    drop(owner);
+    v.lock().ok().and_then(|mut g| g.take()).unwrap_or_else(|| vec!["PORT-NOT-DROPPED".to_string(); 4])
 }
 
 impl std::fmt::Debug for SharedVBus {
@@ -1009,18 +1027,3 @@ impl std::fmt::Debug for SharedVBus {
     }
 }
 
-fn odk_port_view<B: SignBus>(odk: &Odk<TestPort, B>) -> (String, String)
-where
-    Odk<TestPort, B>: std::fmt::Debug,
-{
-    let s = format!("{:?}", odk);
-    let a = s.find("TESTPORT<").expect("no TESTPORT in Debug") + 9;
-    let b = s[a..].find('>').unwrap() + a;
-    let f: Vec<&str> = s[a..b].split('|').collect();
-    (f[0].to_string(), f[1].to_string())
-}
-
-fn odk_settings_view(odk: &Odk<TestPort, VirtualSignBus<'static>>) -> (String, String) {
-    let f = testport_fields(odk);
-    (f[2].clone(), f[3].clone())
-}
